@@ -462,6 +462,11 @@ func synthesize(prog *Program) (map[string]string, map[string]*SpecFn, error) {
 				return nil, nil, err
 			}
 		}
+		if con.Variant != nil {
+			if err := emit(con.Pkg, con.Variant, tparams, sigParams, roles, "int"); err != nil {
+				return nil, nil, err
+			}
+		}
 		if con.ErrIgnorable != nil {
 			if err := emit(con.Pkg, con.ErrIgnorable, tparams, sigParams, roles, "bool"); err != nil {
 				return nil, nil, err
